@@ -1,4 +1,5 @@
 #include "common.hpp"
+#include <boost/math/constants/constants.hpp>
 // Correspondence harness for the rf family (C03, RF/drift part of C08): RFKickMap (both
 // constructors), DriftMap and Ruler of the repo's working tree, driven through their API.
 //
@@ -55,6 +56,19 @@ static std::unique_ptr<RFKickMap> mkrf(const Setup& s, std::shared_ptr<PhaseSpac
     return std::make_unique<RFKickMap>(in, out, s.revpart, s.VRF, s.fRF, s.V0, it, false, nullptr);
 }
 
+// 1 iff the table apply() interpolates with is the one updateSM() builds from the CURRENT _offset
+// (i.e. the map's own code called updateSM() after it last wrote _offset)
+static int table_is_fresh(KickMap& km, size_t entries)
+{
+    std::vector<uint32_t> idx(entries);
+    std::vector<float> wt(entries);
+    for (size_t i = 0; i < entries; i++) { idx[i] = km._hinfo[i].index; wt[i] = km._hinfo[i].weight; }
+    km.updateSM();
+    for (size_t i = 0; i < entries; i++)
+        if (idx[i] != km._hinfo[i].index || std::memcmp(&wt[i], &km._hinfo[i].weight, sizeof(float)) != 0) return 0;
+    return 1;
+}
+
 static void do_rfoffs()
 {
     Setup s = read_setup();
@@ -76,6 +90,9 @@ static void do_rfoffs()
     printf("\nscales"); pf(g1->getAxis(0)->scale("Meter")); pf(g1->getAxis(1)->scale("ElectronVolt"));
     printf("\nrfconst");
     pf(std::tan(rf->_angle)); pf(rf->_bl2phase); pf(rf->_syncphase);
+    printf("\nconsts"); pd(physcons::c); pd(boost::math::constants::two_pi<double>());
+    printf("\nkickdir %d %d", rf->_kickdirection == KickMap::Axis::x ? 1 : 0, dm._kickdirection == KickMap::Axis::x ? 1 : 0);
+    printf("\nfresh %d %d", table_is_fresh(*rf, (size_t)s.n * s.nb * s.it), table_is_fresh(dm, (size_t)s.n * s.nb * s.it));
     printf("\nlast %u %u\n", rf->_lastbunch, dm._lastbunch);
     printf("sizes %zu %zu\n", rf->_offset.size(), dm._offset.size());
     printf("q"); for (unsigned x = 0; x < s.n; x++) pf(g1->getAxis(0)->at(x));
